@@ -723,17 +723,29 @@ pub fn run_lockstep(runs: &[(&CCfg, &[COp])], schedule: &[u8]) -> Vec<Run> {
     for (k, (_, ops)) in runs.iter().enumerate() {
         order.extend(std::iter::repeat(k).take(ops.len()));
     }
-    for k in order {
+    // the muxer values also change places in memory now and then (a muxer may be moved between calls like any other value)
+    let mut slot: Vec<usize> = (0..runs.len()).collect();
+    for (step, k) in order.into_iter().enumerate() {
         let ops = runs[k].1;
         if next[k] >= ops.len() {
             continue;
         }
-        if sessions[k].live() {
+        if step % 5 == 3 && runs.len() >= 2 {
+            let other = (k + 1 + step / 5) % runs.len();
+            if other != k {
+                sessions.swap(slot[k], slot[other]);
+                slot.swap(k, other);
+            }
+        }
+        if sessions[slot[k]].live() {
             sinks[k].set_call(next[k]);
         }
-        sessions[k].step(&ops[next[k]]);
+        sessions[slot[k]].step(&ops[next[k]]);
         next[k] += 1;
     }
+    // back into history order
+    let mut by_hist: Vec<Option<Session<RecSink>>> = sessions.into_iter().map(Some).collect();
+    let sessions: Vec<Session<RecSink>> = (0..runs.len()).map(|k| by_hist[slot[k]].take().unwrap()).collect();
     let mut out = Vec::new();
     for (mut s, sink) in sessions.into_iter().zip(sinks.into_iter()) {
         sink.set_call(usize::MAX - 1);
